@@ -10,6 +10,7 @@ import (
 type metricSnapshot map[string]float64
 
 func labelsKey(m *dto.Metric) string {
+	// (Gather returns label pairs sorted by name)
 	k := ""
 	for _, l := range m.Label {
 		k += "," + l.GetName() + "=" + l.GetValue()
@@ -45,11 +46,11 @@ func gatherMetrics() metricSnapshot {
 // hashing key-location map's collectors for a storage type.
 func (s metricSnapshot) indexDiscards(storageType string) float64 {
 	return s["buildbarn_blobstore_hashing_key_location_map_put_too_many_iterations_total,storage_type="+storageType] +
-		s["buildbarn_blobstore_hashing_key_location_map_put_iterations,storage_type="+storageType+",outcome=TooManyAttempts_count"] +
+		s["buildbarn_blobstore_hashing_key_location_map_put_iterations,outcome=TooManyAttempts,storage_type="+storageType+"_count"] +
 		s["buildbarn_blobstore_hashing_key_location_map_get_too_many_attempts_total,storage_type="+storageType]
 }
 
 func (s metricSnapshot) putDiscards(storageType string) float64 {
 	return s["buildbarn_blobstore_hashing_key_location_map_put_too_many_iterations_total,storage_type="+storageType] +
-		s["buildbarn_blobstore_hashing_key_location_map_put_iterations,storage_type="+storageType+",outcome=TooManyAttempts_count"]
+		s["buildbarn_blobstore_hashing_key_location_map_put_iterations,outcome=TooManyAttempts,storage_type="+storageType+"_count"]
 }
